@@ -26,7 +26,7 @@ RULE = (
     "label in no cell; empty cells == fill; returned labels == requested labels / IntervalIndex. Non-trivial = >=2 "
     "groupers, or a binned value exactly on an edge or outside all bins."
 )
-BUDGET = {"quick": 250, "thorough": 3000}
+BUDGET = {"quick": 500, "thorough": 3000}
 ASSUMPTIONS = [
     "datetime labels with bins are excluded (np.digitize on datetimes fails in this environment already in the baseline suite)",
     "cells whose members are all NaN are masked by flox by design when a fill is given: not asserted",
